@@ -8,7 +8,7 @@ from mcv.gen import cue as Q
 from mcv.gen import akai as A
 
 UNKNOWN = ["REM x", 'PERFORMER "p"', "FLAGS DCP", "PREGAP 00:02:00", "ISRC X", "CATALOG 1",
-           "REM TRACK 09 AUDIO", 'REM FILE "z" BINARY', "", "   "]
+           "REM TRACK 09 AUDIO", 'REM FILE "z" BINARY', "", "   ", "\t"]
 PADS = ["lead", "trail", "tab", "cr"]
 
 
@@ -99,6 +99,12 @@ def single_transformations(recs):
     for pos in insert_positions(recs):
         for k in range(len(UNKNOWN)):
             out.append(["ins", pos, k])
+    # blank lines are admissible everywhere, also between the FILE line and the first TRACK (unknown lines are not)
+    first_track = next(i for i, r in enumerate(recs) if r[0] == "TRACK")
+    for pos in range(1, first_track + 1):
+        for k, u in enumerate(UNKNOWN):
+            if u.strip() == "":
+                out.append(["ins", pos, k])
     return out
 
 
@@ -200,8 +206,8 @@ class Check(CheckBase):
     title = "Cue sheets are read the same regardless of case, spacing and unknown lines"
     rule = ("24 canonical sheets (tracks 1..3 x INDEX lines {1,2} x TITLE {y,n} x {all AUDIO, first track data}) x all "
             "single transformations: 80 keyword-case combinations (3^4-1), padding {leading, trailing, tabs, CR} uniform "
-            "and on each single line, each of 10 blank/unknown lines at every admissible position (before FILE, anywhere "
-            "after the first TRACK line); x line ending {LF, CRLF}; all PAIRS of single transformations (quick: sheets "
+            "and on each single line, each of 11 blank/unknown lines at every admissible position (before FILE, anywhere "
+            "after the first TRACK line; blank lines also between FILE and the first TRACK); x line ending {LF, CRLF}; all PAIRS of single transformations (quick: sheets "
             "with <=2 tracks and every 5th pair; thorough: all); structure compared with the model; image-level (real "
             "files, class + ls text) for all single transformations; negative: FILE line removed, non-ASCII byte on each "
             "line -> not a cue sheet and no exception. non-trivial = transformed text differs from canonical")
